@@ -13,7 +13,7 @@ import (
 )
 
 func init() {
-	Registry["C06"] = Spec{Run: runC06}
+	Registry["C06"] = Spec{Run: runC06, Packages: []string{"lockedfile"}}
 }
 
 const lfPkg = core.ModPath + "/lockedfile"
@@ -557,6 +557,9 @@ func osBinding(ctx *core.Ctx) {
 				for _, w := range writesIn(p, f) {
 					if w.Glob == nil || (w.Glob.Name() != "inodes" && w.Glob.Name() != "locks") {
 						continue
+					}
+					if f.Name() == "init" {
+						continue // package initialisation runs before any lock can be requested
 					}
 					n++
 					ctx.Check(len(locksetAt(p, f, w.Instr)) > 0, "L5", shortFn(f)+"#table-write"+itoa(n), w.Instr.Pos(), "in-process lock table %s updated with the package mutex held", w.Glob.Name())
